@@ -467,7 +467,7 @@ def monitor_proc(L, F):
 
 class Scenario:
     def __init__(self, ctx, bins, slot, name, cuts, rst=False, pre=200, during=150, post=100, extra=None, seed=1, unlock=30,
-                 data=20, big=0, throttle=0, sleep_us=20000, delay_started=0):
+                 data=20, big=0, throttle=0, sleep_us=20000, delay_started=0, restart_leader=False, during_delay=0.0):
         self.__dict__.update(locals())
         self.base = 15900 + 10 * slot
         self.dir = "/tmp/c09-%d-%s" % (os.getpid(), name)
@@ -501,6 +501,23 @@ class Scenario:
                 except OSError:
                     time.sleep(0.1)
             self.workload(self.pre, self.seed, 0)
+            if self.restart_leader:
+                # a leader that was restarted and has logged nothing since: its ring is empty at the follower's handshake,
+                # the boundary of the full transfer comes from the append file position (handleInitSync)
+                time.sleep(0.5)
+                procs[0].terminate()
+                try:
+                    procs[0].wait(timeout=10)
+                except Exception:
+                    procs[0].kill()
+                procs[0] = self.start([self.bins["slock"], "--port", str(self.base), "--data_dir", d + "/leader", "--log", d + "/leader.log"] + common,
+                                      d + "/leader.out")
+                for _ in range(100):
+                    try:
+                        socket.create_connection(("127.0.0.1", self.base), timeout=0.2).close()
+                        break
+                    except OSError:
+                        time.sleep(0.1)
             pc = [self.bins["faultproxy"], "-listen", "127.0.0.1:%d" % (self.base + 1), "-target", "127.0.0.1:%d" % self.base, "-cuts", self.cuts]
             if self.rst:
                 pc.append("-rst")
@@ -512,6 +529,8 @@ class Scenario:
             time.sleep(0.2)
             procs.append(self.start([self.bins["slock"], "--port", str(self.base + 2), "--data_dir", d + "/follower", "--log", d + "/follower.log",
                                      "--slaveof", "127.0.0.1:%d" % (self.base + 1)] + common, d + "/follower.out"))
+            if self.during_delay:
+                time.sleep(self.during_delay)
             self.workload(self.during, self.seed + 1, 100000, self.sleep_us)
             ncuts = len([c for c in self.cuts.split(",") if c.strip() and c.strip() != "-1"])
             t0 = time.time()
@@ -594,6 +613,8 @@ def proc_part(ctx, bins, thorough, cov, flags):
              sleep_us=2000, extra=["--aof_ring_buffer_size", "1024", "--aof_ring_buffer_max_size", "1024"]),
         # full transfer of a rotated log (128 records per append file, nothing unlocked so that compaction keeps every record): the
         # boundary is in the third file, the older files hold larger offsets
+        # restarted leader, nothing logged since (empty ring): the full transfer must include the last record of the log
+        dict(name="restarted-leader-empty-ring-full-transfer", cuts="-1", pre=40, during=20, post=10, unlock=0, data=0, restart_leader=True, during_delay=2.0),
         dict(name="rotated-log-full-transfer", cuts="-1", pre=300, during=60, post=40, unlock=0, extra=["--aof_file_rewrite_size", "8192"]),
     ]
     if thorough:
